@@ -15,6 +15,7 @@ import (
 	"verif/cfg"
 	"verif/core"
 	"verif/oracle"
+	"verif/sg"
 	"verif/wl"
 )
 
@@ -175,3 +176,38 @@ func sortStrings(s []string) { sort.Strings(s) }
 
 func jsonMarshal(v any) ([]byte, error)   { return json.Marshal(v) }
 func jsonUnmarshal(b []byte, v any) error { return json.Unmarshal(b, v) }
+
+// mixDoc is the shared random-document source of the monitors: the standard mixture of the workload library (soup, corpus,
+// mutants, distilled corpus) and, one time in six, a document from one of the property-specific generators (footnote
+// documents, tables, heading multisets, URL spellings in URL-bearing constructs, by-construction CommonMark documents,
+// attribute blocks, definition blocks with references). Every generator written for one property thereby feeds all.
+func mixDoc(r *rand.Rand, corpus []wl.Example) []byte {
+	if r.Intn(6) != 0 {
+		return wl.Mix(r, corpus)
+	}
+	switch r.Intn(7) {
+	case 0:
+		return c16Gen(r, cfg.Spec{Ext: cfg.ExtAll}, r.Intn(3) == 0).src
+	case 1:
+		return c17Gen(r).src
+	case 2:
+		all := append(append([]string{}, c15Texts...), c15Extra...)
+		seq := make([]string, 1+r.Intn(8))
+		for i := range seq {
+			seq[i] = all[r.Intn(len(all))]
+		}
+		return c15Build(r, seq, cfg.Spec{Ext: cfg.ExtAll, AutoHeadingID: true}).src
+	case 3:
+		sp := c04Spell(r)
+		con := c04Constructs[r.Intn(len(c04Constructs))]
+		return []byte(strings.ReplaceAll(con.Tmpl, "%U", sp.Text))
+	case 4:
+		return []byte(sg.Document(r, 3, 6, 4, nil).Markdown)
+	case 5:
+		return append(append([]byte("# h *e*"), wl.AttrBlockWith(r, 2)...), wl.Soup(r, 8)...)
+	default:
+		defs, dsrc := c09GenDefs(r)
+		d := c09InjectRefs(r, wl.Soup(r, 10), defs)
+		return append(append(d, "\n\n"...), dsrc...)
+	}
+}
